@@ -262,6 +262,8 @@ def check_b(res, case):
             else:
                 Line(c, (inst, j), ys[j])
         sn0 = snames(c)
+        import pickle
+        pickle.dumps(c)      # the circuit has been serialised once before the substitution (a checkpoint)
         c.substitute(inst, impl)
         for what, msg in invariants(c):
             res.violation(key + f'/invariant-{what}', case, msg)
@@ -292,6 +294,10 @@ def check_b(res, case):
         if obs != exp:
             diff = sorted(set(k for k in set(obs) | set(exp) if obs.get(k) != exp.get(k)))
             res.violation(key + '/function', case, f'after substitute: {diff} got {[obs.get(k) for k in diff]} expected {[exp.get(k) for k in diff]}')
+        # ... and is serialised again afterwards: the restored circuit is the substituted one
+        c2 = pickle.loads(pickle.dumps(c))
+        if snames(c2) != sn0 or tt(c2, out_names=[y.name for y in ys]) != (names, obs):
+            res.violation(key + '/pickle-after-substitute', case, f'pickle round trip after substitute (circuit pickled before as well): names {snames(c2)}, function {tt(c2, out_names=[y.name for y in ys])[1]} instead of {obs}')
         res.sig(('b', text, tuple(conn_in), tuple(conn_out), ctx, tuple(sorted(obs.items()))))
         res.count('b_cases')
         if not all(conn_in): res.count('b_unconnected_input')
